@@ -124,10 +124,9 @@ def processField (S : Schema) (M : Struct) (f : StructField) : Except String (Fi
         | some (.struct E) =>
           pure (⟨none, true, E.isAbstract, none, []⟩,
             if !M.isAligned.truthy && E.isAligned.truthy then some E.name else none)
-        | some d =>
-          -- alias / enum element: `display_type` exists, `is_aligned` does not (AttributeError unless the struct is aligned)
-          if M.isAligned.truthy then pure (⟨none, true, false, none, []⟩, none)
-          else throw s!"AttributeError: {d.name} has no attribute is_aligned"
+        | some _ =>
+          -- alias / enum element: `display_type` exists; `getattr(element_type_model, 'is_aligned', False)` is False
+          pure (⟨none, true, false, none, []⟩, none)
         | none => throw "AttributeError: NoneType has no attribute display_type"
       | .int _ => throw "AttributeError: NoneType has no attribute display_type"
     else pure (⟨none, true, false, none, []⟩, none)
